@@ -36,6 +36,7 @@ import (
 	"github.com/bufbuild/buf/private/bufpkg/bufcheck"
 	"github.com/bufbuild/buf/private/bufpkg/bufconfig"
 	"github.com/bufbuild/buf/private/bufpkg/bufimage"
+	"github.com/bufbuild/buf/private/bufpkg/bufplugin"
 	"github.com/bufbuild/buf/private/pkg/app"
 	"github.com/bufbuild/buf/private/pkg/app/appext"
 	"github.com/bufbuild/buf/private/pkg/storage/storageos"
@@ -48,6 +49,9 @@ import (
 
 // migUnknownID is the error text of bufcheck for an id that does not exist in the configuration's version.
 const migUnknownID = "is not a known rule or category ID"
+
+// migEmptyRules is bufcheck's system error for a configuration whose use minus except is empty.
+const migEmptyRules = "resultRules was empty"
 
 // migUnknownIDClass classifies an "unknown id" failure after/during migration by the id it names:
 // "deprecated-id" (deprecated in v1/v1beta1, gone in v2), "v1beta1-only-id" (exists only in the v1beta1
@@ -108,7 +112,7 @@ func migCaseOf(ws *migWS) *migCase {
 	}
 	switch ws.Layout {
 	case "work":
-		// `buf lint <workspace>` and `buf lint <workspace>/<module dir>`
+		// `buf lint <workspace>` and `buf lint <workspace>/<module dir>` for one drawn module
 		c.Inputs = []string{".", ws.Modules[ws.InputMod].Dir}
 	case "root":
 		c.Inputs = []string{"."}
@@ -144,6 +148,15 @@ func (c *migCase) checksDisabled(mod string) (lint, breaking bool) {
 	return mc.LintConfig().Disabled(), mc.BreakingConfig().Disabled()
 }
 
+func (c *migCase) noBufYAML(mod string) bool {
+	for _, m := range c.Modules {
+		if m.Dir == mod {
+			return m.NoBufYAML
+		}
+	}
+	return false
+}
+
 func (c *migCase) moduleOf(rel string) string {
 	best := "?"
 	for _, m := range c.Modules {
@@ -160,7 +173,11 @@ func (c *migCase) moduleOf(rel string) string {
 // environment: one controller per process
 
 type migEnv struct {
-	ctl    bufctl.Controller
+	ctl bufctl.Controller
+	// checks is one bufcheck client for the whole process: the client the controller hands out is
+	// equivalent for workspaces without check plugins, but a fresh one re-lists (and re-validates) the
+	// whole rule table on first use, which dominates the cost of a case.
+	checks bufcheck.Client
 	cont   appext.Container
 	stderr *bytes.Buffer
 }
@@ -181,7 +198,15 @@ func migNewEnv(home string) (*migEnv, error) {
 	if err != nil {
 		return nil, err
 	}
-	return &migEnv{ctl: ctl, cont: cont, stderr: stderr}, nil
+	checks, err := bufcheck.NewClient(
+		migLogger,
+		bufcheck.NewLocalRunnerProvider(wasm.UnimplementedRuntime, bufplugin.NopPluginKeyProvider, bufplugin.NopPluginDataProvider),
+		bufcheck.ClientWithStderr(stderr),
+	)
+	if err != nil {
+		return nil, err
+	}
+	return &migEnv{ctl: ctl, checks: checks, cont: cont, stderr: stderr}, nil
 }
 
 // ---------------------------------------------------------------------------------------------
@@ -270,10 +295,11 @@ func (e *migEnv) observe(ctx context.Context, c *migCase, root, input string) *m
 	if input != "." {
 		abs = filepath.Join(root, filepath.FromSlash(input))
 	}
-	o.images, o.client, o.Err = e.migImages(ctx, abs)
+	o.images, _, o.Err = e.migImages(ctx, abs)
 	if o.Err != "" {
 		return o
 	}
+	o.client = e.checks
 	all := migCheckOptions(o.images)
 	lintAnns := map[string][]migAnn{}
 	for _, iwc := range o.images {
@@ -478,6 +504,8 @@ func migOracle(tb evid.TB, env *migEnv, c *migCase, st *migStats) (string, strin
 		key := "migrate-failed"
 		if cls := migUnknownIDClass(err.Error()); cls != "" {
 			key = "migrate-failed:" + cls
+		} else if strings.Contains(err.Error(), migEmptyRules) {
+			key = "migrate-failed:empty-rule-set"
 		}
 		return key, fmt.Sprintf("bufmigrate.MigrateAll on a workspace that builds, lints and breaking-checks before migration: %v", err)
 	}
@@ -535,6 +563,8 @@ func migOracle(tb evid.TB, env *migEnv, c *migCase, st *migStats) (string, strin
 			key := "migration:lint-results-differ"
 			if cls := migUnknownIDClass(a.lintErr); cls != "" {
 				key = "migration:emitted-" + cls
+			} else if strings.Contains(a.lintErr, migEmptyRules) {
+				key = "migration:emitted-empty-rule-set"
 			}
 			return key, fmt.Sprintf("lint works before migration, fails after: %s\n%s", a.lintErr, ctxText)
 		}
@@ -543,6 +573,9 @@ func migOracle(tb evid.TB, env *migEnv, c *migCase, st *migStats) (string, strin
 				key := "migration:lint-results-differ"
 				if lintOff, _ := c.checksDisabled(mod); lintOff {
 					key = "migration:disabled-checks-reenabled"
+				}
+				if c.noBufYAML(mod) {
+					key = "migration:no-buf-yaml-module-gets-v2-defaults"
 				}
 				return key, fmt.Sprintf("module %q: lint annotations only before (%d):\n  %s\nonly after (%d):\n  %s\n%s",
 					mod, len(onlyB), strings.Join(onlyB, "\n  "), len(onlyA), strings.Join(onlyA, "\n  "), ctxText)
@@ -560,6 +593,8 @@ func migOracle(tb evid.TB, env *migEnv, c *migCase, st *migStats) (string, strin
 			key := "migration:breaking-results-differ"
 			if cls := migUnknownIDClass(errText); cls != "" {
 				key = "migration:emitted-" + cls
+			} else if strings.Contains(errText, migEmptyRules) {
+				key = "migration:emitted-empty-rule-set"
 			}
 			return key, fmt.Sprintf("breaking against the un-migrated copy works before migration, fails after: %s\n%s", errText, ctxText)
 		}
@@ -569,6 +604,9 @@ func migOracle(tb evid.TB, env *migEnv, c *migCase, st *migStats) (string, strin
 			for _, m := range c.Modules {
 				if _, brkOff := c.checksDisabled(m.Dir); brkOff && (in == "." || in == m.Dir) {
 					key = "migration:disabled-checks-reenabled"
+				}
+				if m.NoBufYAML && (in == "." || in == m.Dir) {
+					key = "migration:no-buf-yaml-module-gets-v2-defaults"
 				}
 			}
 			return key, fmt.Sprintf("breaking annotations only before (%d):\n  %s\nonly after (%d):\n  %s\n%s",
